@@ -29,9 +29,19 @@ Inductive op :=
 | OFree (i : nat)      (* allocator.deallocate(i-th id kept by this thread, newest = 0) *)
 | OEmplace             (* box.emplace(item): the returned id is appended to the shared list ids *)
 | OTake (k : nat)      (* box.take_released(k-th id of the shared list) *)
-| OFinish.             (* box.finish_released(oldest id this thread took and has not finished) *)
+| OFinish              (* box.finish_released(oldest id this thread took and has not finished) *)
+(* the RAII layer: every thread has Accessor objects ("holders", default-constructed empty), numbered 0,1,2,... *)
+| OAcTake (h k : nat)  (* holder[h] = box.take(k-th id of the shared list)   (move assignment from the temporary,
+                          then the temporary's destructor) *)
+| OAcMove (h g : nat)  (* holder[h] = std::move(holder[g])                    (move assignment) *)
+| OAcCtor (h g : nat)  (* construct holder[h] (destroyed / empty before) from std::move(holder[g])  (move constructor) *)
+| OAcDrop (h : nat).   (* destroy holder[h]; construct it again empty *)
 
-Inductive res := RId (v k : Z) | RFree | REmp (v k : Z) | RTake (ok : bool) | RFin | RSkip.
+Inductive res := RId (v k : Z) | RFree | REmp (v k : Z) | RTake (ok : bool) | RFin | RSkip | RAcc.
+
+(* an Accessor: (_object <> nullptr, _id); _box is always the one box of the model *)
+Definition acc := (bool * id)%type.
+Definition empty_acc : acc := (false, (0, 0)).
 
 Inductive pc :=
 | Idle
@@ -42,14 +52,16 @@ Inductive pc :=
 | AMintMark (v : Z)          (* next: _free_next_value.ensure(v) := ACTIVE_FLAG; return (v,0) *)
 | FStore (v cv ck : Z)       (* deallocate(v): head loaded = (cv,ck); next: _free_next_value[v] := cv *)
 | FCas (v cv ck : Z)         (* next: CAS head (cv,ck) -> (v,ck+1) *)
-| ESlot (v k : Z).           (* emplace: allocated (v,k); next: slot[v].version := k; construct; return *)
+| ESlot (v k : Z)            (* emplace: allocated (v,k); next: slot[v].version := k; construct; return *)
+| DLoad (v : Z).             (* ~Accessor of the temporary of holder = take(id): finish_released; next: head load *)
 
 (* prog: the operations still to run (head = current); results: newest first *)
-Record thread := { prog : list op; tpc : pc; held : list id; taken : list id; results : list res }.
+Record thread := { prog : list op; tpc : pc; held : list id; taken : list id; accs : list acc; results : list res }.
 
 Record shared := {
   hv : Z; hk : Z; nxt : list Z; nv : Z; sver : list Z; ids : list id;
-  fl : list Z; boxed : list id; wins : list id; miss : bool }.
+  fl : list Z; boxed : list id; wins : list id; miss : bool;
+  nfin : Z (* ghost: number of finish_released calls made so far *) }.
 
 Record st := { sh : shared; threads : list thread }.
 
@@ -84,29 +96,76 @@ Fixpoint remove_v (v : Z) (l : list id) : list id :=
 Definition id_eqb (a b : id) : bool := (fst a =? fst b) && (snd a =? snd b).
 Definition mem_id (a : id) (l : list id) : bool := existsb (id_eqb a) l.
 
-Definition mk_thread (p : list op) : thread := {| prog := p; tpc := Idle; held := []; taken := []; results := [] |}.
+Definition mk_thread (p : list op) : thread :=
+  {| prog := p; tpc := Idle; held := []; taken := []; accs := []; results := [] |}.
 Definition init_shared (c : cfg) : shared :=
-  {| hv := tail c; hk := 0; nxt := []; nv := 0; sver := []; ids := []; fl := []; boxed := []; wins := []; miss := false |}.
+  {| hv := tail c; hk := 0; nxt := []; nv := 0; sver := []; ids := []; fl := []; boxed := []; wins := []; miss := false; nfin := 0 |}.
 Definition init (c : cfg) (progs : list (list op)) : st := {| sh := init_shared c; threads := map mk_thread progs |}.
 
 Definition goto (th : thread) (p : pc) : thread :=
-  {| prog := prog th; tpc := p; held := held th; taken := taken th; results := results th |}.
+  {| prog := prog th; tpc := p; held := held th; taken := taken th; accs := accs th; results := results th |}.
 (* the current operation returns r *)
 Definition ret (th : thread) (h t : list id) (r : res) : thread :=
-  {| prog := tl (prog th); tpc := Idle; held := h; taken := t; results := r :: results th |}.
+  {| prog := tl (prog th); tpc := Idle; held := h; taken := t; accs := accs th; results := r :: results th |}.
+(* same operation goes on at pc p with these kept / taken lists *)
+Definition cont (th : thread) (p : pc) (h t : list id) : thread :=
+  {| prog := prog th; tpc := p; held := h; taken := t; accs := accs th; results := results th |}.
+Definition set_accs (th : thread) (a : list acc) : thread :=
+  {| prog := prog th; tpc := tpc th; held := held th; taken := taken th; accs := a; results := results th |}.
+Definition push_res (th : thread) (r : res) : thread :=
+  {| prog := prog th; tpc := tpc th; held := held th; taken := taken th; accs := accs th; results := r :: results th |}.
+(* the current operation is over, its result was recorded before *)
+Definition pop_op (th : thread) : thread :=
+  {| prog := tl (prog th); tpc := Idle; held := held th; taken := taken th; accs := accs th; results := results th |}.
 
 Definition set_head (s : shared) (v k : Z) (f : list Z) : shared :=
   {| hv := v; hk := k; nxt := nxt s; nv := nv s; sver := sver s; ids := ids s; fl := f; boxed := boxed s;
-     wins := wins s; miss := miss s |}.
+     wins := wins s; miss := miss s; nfin := nfin s |}.
 Definition set_nxt (s : shared) (i x : Z) : shared :=
   {| hv := hv s; hk := hk s; nxt := setz (nxt s) i x; nv := nv s; sver := sver s; ids := ids s; fl := fl s;
-     boxed := boxed s; wins := wins s; miss := miss s |}.
+     boxed := boxed s; wins := wins s; miss := miss s; nfin := nfin s |}.
 Definition set_nv (s : shared) (n : Z) : shared :=
   {| hv := hv s; hk := hk s; nxt := nxt s; nv := n; sver := sver s; ids := ids s; fl := fl s; boxed := boxed s;
-     wins := wins s; miss := miss s |}.
+     wins := wins s; miss := miss s; nfin := nfin s |}.
 Definition set_box (s : shared) (sv : list Z) (i b w : list id) (m : bool) : shared :=
   {| hv := hv s; hk := hk s; nxt := nxt s; nv := nv s; sver := sv; ids := i; fl := fl s; boxed := b; wins := w;
-     miss := m |}.
+     miss := m; nfin := nfin s |}.
+Definition inc_fin (s : shared) : shared :=
+  {| hv := hv s; hk := hk s; nxt := nxt s; nv := nv s; sver := sver s; ids := ids s; fl := fl s; boxed := boxed s;
+     wins := wins s; miss := miss s; nfin := nfin s + 1 |}.
+
+(* ---- the Accessor's special members, interpreted from the regenerated source expressions.
+   Members are named by codes: this->_box 1, this->_object 2, this->_id 3, other._box 4, other._object 5, other._id 6. *)
+Definition get_acc (l : list acc) (h : nat) : acc := nth h l empty_acc.
+Fixpoint set_acc (h : nat) (x : acc) (l : list acc) : list acc :=
+  match h, l with
+  | O, [] => [x]
+  | O, _ :: r => x :: r
+  | S h', [] => empty_acc :: set_acc h' x []
+  | S h', y :: r => y :: set_acc h' x r
+  end.
+(* std::swap(a, b) on the pair (this, other) *)
+Definition swap_members (a b : Z) (p : acc * acc) : acc * acc :=
+  let '((t_o, t_i), (o_o, o_i)) := p in
+  if ((a =? 2) && (b =? 5)) || ((a =? 5) && (b =? 2)) then ((o_o, t_i), (t_o, o_i))
+  else if ((a =? 3) && (b =? 6)) || ((a =? 6) && (b =? 3)) then ((t_o, o_i), (o_o, t_i))
+  else p.
+(* operator=(Accessor&& other): the three swaps of the source, in source order *)
+Definition acc_assign (p : acc * acc) : acc * acc :=
+  swap_members (acc_swap2_lhs 1 2 3 4 5 6) (acc_swap2_rhs 1 2 3 4 5 6)
+    (swap_members (acc_swap1_lhs 1 2 3 4 5 6) (acc_swap1_rhs 1 2 3 4 5 6)
+       (swap_members (acc_swap0_lhs 1 2 3 4 5 6) (acc_swap0_rhs 1 2 3 4 5 6) p)).
+(* Accessor(Accessor&& other) : Accessor {other._box, std::exchange(other._object, nullptr), other._id}
+   -> (the new accessor, other afterwards) *)
+Definition acc_ctor (o : acc) : acc * acc :=
+  let '(o_o, o_i) := o in
+  let src := acc_ctor_exchange_obj 1 2 3 4 5 6 in
+  let new_o := if src =? 5 then o_o else false in
+  let other_o := if src =? 5 then negb (acc_ctor_exchange_new 1 2 3 4 5 6 =? 0) && o_o else o_o in
+  let new_i := if acc_ctor_id 1 2 3 4 5 6 =? 6 then o_i else (0, 0) in
+  ((new_o, new_i), (other_o, o_i)).
+(* ~Accessor: does it call finish_released? *)
+Definition acc_dtor_fires (a : acc) : bool := acc_dtor_cond (if fst a then 1 else 0).
 
 (* allocate(): the loop test after a head load / a failed CAS *)
 Definition enter_alloc (c : cfg) (th : thread) (cv ck : Z) : thread :=
@@ -117,8 +176,22 @@ Definition finish_alloc (th : thread) (v k : Z) : thread :=
   | OEmplace :: _ => goto th (ESlot v k)
   | _ => ret th ((v, k) :: held th) (taken th) (RId v k)
   end.
+(* values whose slot an armed accessor of the thread holds *)
+Definition acc_values (l : list acc) : list Z := map (fun a => fst (snd a)) (filter fst l).
+(* the move construction of OAcCtor h g *)
+Definition do_ctor (th : thread) (h g : nat) : thread :=
+  let '(n, o') := acc_ctor (get_acc (accs th) g) in
+  ret (set_accs th (set_acc g o' (set_acc h n (accs th)))) (held th) (taken th) RAcc.
+(* deallocate() returned *)
 Definition finish_free (th : thread) : thread :=
-  ret th (held th) (taken th) (match prog th with OFinish :: _ => RFin | _ => RFree end).
+  match prog th with
+  | OFinish :: _ => ret th (held th) (taken th) RFin
+  | OAcTake _ _ :: _ => pop_op th
+  | OAcDrop _ :: _ => ret th (held th) (taken th) RAcc
+  | _ => ret th (held th) (taken th) RFree
+  end.
+(* the value passed to deallocate by ~Accessor *)
+Definition dtor_value (a : acc) : Z := finish_value (acc_dtor_arg (fst (snd a))).
 
 Definition tstep (c : cfg) (s : shared) (th : thread) : option (shared * thread) :=
   match tpc th with
@@ -130,15 +203,13 @@ Definition tstep (c : cfg) (s : shared) (th : thread) : option (shared * thread)
       match nth_error (held th) i with
       | None => Some (s, ret th (held th) (taken th) RSkip)
       | Some (v, _) =>                                                              (* load head (acquire) *)
-        Some (s, {| prog := prog th; tpc := FStore v (hv s) (hk s); held := remove_nth i (held th);
-                    taken := taken th; results := results th |})
+        Some (s, cont th (FStore v (hv s) (hk s)) (remove_nth i (held th)) (taken th))
       end
     | OFinish :: _ =>
       match taken th with
       | [] => Some (s, ret th (held th) (taken th) RSkip)
       | (v, _) :: r =>                                                              (* deallocate(id.value) *)
-        Some (s, {| prog := prog th; tpc := FStore (finish_value v) (hv s) (hk s); held := held th; taken := r;
-                    results := results th |})
+        Some (inc_fin s, cont th (FStore (finish_value v) (hv s) (hk s)) (held th) r)
       end
     | OTake k :: _ =>
       match nth_error (ids s) k with
@@ -152,7 +223,39 @@ Definition tstep (c : cfg) (s : shared) (th : thread) : option (shared * thread)
           Some (set_box s (sver s) (ids s) (boxed s) (wins s) (miss s || negb (mem_id (v, kk) (wins s))),
                 ret th (held th) (taken th) (RTake false))
       end
+        | OAcTake h k :: _ =>
+      match nth_error (ids s) k with
+      | None => Some (s, ret th (held th) (taken th) RSkip)
+      | Some (v, kk) =>                                  (* take(): the same CAS; then the move assignment *)
+        if getz (sver s) (take_slot_index v) =? take_expected kk then
+          let s1 := set_box s (setz (sver s) (take_slot_index v) (wrapk c (take_desired kk))) (ids s)
+                            (remove_v v (boxed s)) ((v, kk) :: wins s) (miss s) in
+          let '(hnew, tmp) := acc_assign (get_acc (accs th) h, (true, (v, kk))) in
+          let th1 := push_res (set_accs th (set_acc h hnew (accs th))) (RTake true) in
+          if acc_dtor_fires tmp then Some (inc_fin s1, goto th1 (DLoad (dtor_value tmp))) else Some (s1, pop_op th1)
+        else
+          let s1 := set_box s (sver s) (ids s) (boxed s) (wins s) (miss s || negb (mem_id (v, kk) (wins s))) in
+          let '(hnew, tmp) := acc_assign (get_acc (accs th) h, (false, (v, kk))) in
+          let th1 := push_res (set_accs th (set_acc h hnew (accs th))) (RTake false) in
+          if acc_dtor_fires tmp then Some (inc_fin s1, goto th1 (DLoad (dtor_value tmp))) else Some (s1, pop_op th1)
+      end
+    | OAcMove h g :: _ =>                                (* no atomic operation: one local step *)
+      if Nat.eqb h g then Some (s, ret th (held th) (taken th) RAcc)
+      else
+        let '(a, b) := acc_assign (get_acc (accs th) h, get_acc (accs th) g) in
+        Some (s, ret (set_accs th (set_acc g b (set_acc h a (accs th)))) (held th) (taken th) RAcc)
+    | OAcCtor h g :: _ =>
+      (* holder h must have been destroyed before (OAcDrop h): constructing over a live armed object is not done *)
+      if Nat.eqb h g || fst (get_acc (accs th) h) then Some (s, ret th (held th) (taken th) RSkip)
+      else Some (s, do_ctor th h g)                      (* no atomic operation: one local step *)
+    | OAcDrop h :: _ =>
+      let old := get_acc (accs th) h in
+      if acc_dtor_fires old then
+        Some (inc_fin s, cont (set_accs th (set_acc h empty_acc (accs th))) (FStore (dtor_value old) (hv s) (hk s))
+                              (held th) (taken th))
+      else Some (s, ret th (held th) (taken th) RAcc)
     end
+  | DLoad v => Some (s, goto th (FStore v (hv s) (hk s)))    (* deallocate: load head (acquire) *)
   | ALoadNext cv ck =>                                   (* _free_next_value[cv].load(relaxed) *)
     Some (s, goto th (ACas cv ck (getz (nxt s) (pop_link_index cv))))
   | ACas cv ck nx =>                                     (* free_head().compare_exchange_weak(cur, new) *)
@@ -200,9 +303,11 @@ Definition zseq (n : Z) : list Z := map Z.of_nat (seq 0 (Z.to_nat n)).
 Definition live (c : cfg) (s : shared) : list Z :=
   filter (fun v => getz (nxt s) v =? ACTIVE_FLAG (tail c)) (zseq (nv s)).
 
-(* every value some client currently holds (kept by a thread, taken and not finished, or sitting in the box) *)
+(* every value some client currently holds (kept by a thread, taken and not finished - raw or through an armed
+   Accessor -, or sitting in the box) *)
 Definition held_values (s : st) : list Z :=
-  flat_map (fun th => map fst (held th) ++ map fst (taken th)) (threads s) ++ map fst (boxed (sh s)).
+  flat_map (fun th => map fst (held th) ++ map fst (taken th) ++ acc_values (accs th)) (threads s) ++
+  map fst (boxed (sh s)).
 
 (* observable outcome of a finished execution, as the implementation driver prints it *)
 Definition outcome (c : cfg) (s : st) : list (list res) * list Z * Z :=
